@@ -386,24 +386,69 @@ def check_walk(ctx, rep, rule='T-walk'):
 PIO = 'boolean::connect_edges::precompute_iteration_order'
 
 
-def _ix(v, names):
-    """canonical text of an index expression over the group boundaries i0 (group start), i1 (end of R events), i2 (end of L events)"""
+def _lin(v, names):
+    """index expression as a linear form over the group boundaries i0 (group start), i1 (end of R events), i2 (end of L events),
+    the chain variable j and opaque leaves: ({symbol: coefficient}, constant)"""
     x = strip_upd(v)
     if x[0] == 'havoc':
-        return names.get((x[1], x[2]), 'h%s_%s' % (x[1], x[2]))
+        return ({names.get((x[1], x[2]), 'h%s_%s' % (x[1], x[2])): 1}, 0)
+    if x[0] == 'cast':
+        return _lin(x[2], names)
     if x[0] == 'field' and str(x[2]) == '0':
         y = strip_upd(x[1])
-        if y[0] == 'op' and y[1] in ('addwithoverflow', 'subwithoverflow') and len(y) == 4 and sym.is_const(strip_upd(y[3])):
-            return '%s%s%d' % (_ix(y[2], names), '+' if y[1].startswith('add') else '-', strip_upd(y[3])[1])
+        if y[0] == 'op' and y[1] in ('addwithoverflow', 'subwithoverflow') and len(y) == 4:
+            return _comb(_lin(y[2], names), _lin(y[3], names), 1 if y[1].startswith('add') else -1)
         if y[0] == 'variant' and y[2] == 'Some':
             it = strip_upd(y[1])
             if it[0] in ('call', 'pcall') and it[1].endswith('::next'):
-                return 'j'
-    if x[0] == 'op' and x[1] in ('add', 'sub') and len(x) == 4 and sym.is_const(strip_upd(x[3])):
-        return '%s%s%d' % (_ix(x[2], names), '+' if x[1] == 'add' else '-', strip_upd(x[3])[1])
-    if sym.is_const(x):
-        return str(x[1])
-    return '?' + show(noepoch(x))[:30]
+                return ({'j': 1}, 0)
+    if x[0] == 'op' and x[1] in ('add', 'sub') and len(x) == 4:
+        return _comb(_lin(x[2], names), _lin(x[3], names), 1 if x[1] == 'add' else -1)
+    if sym.is_const(x) and isinstance(x[1], int) and not isinstance(x[1], bool):
+        return ({}, int(x[1]))
+    return ({'?' + show(noepoch(x))[:30]: 1}, 0)
+
+
+def _comb(a, b, sign):
+    d = dict(a[0])
+    for k, c in b[0].items():
+        d[k] = d.get(k, 0) + sign * c
+        if d[k] == 0:
+            del d[k]
+    return (d, a[1] + sign * b[1])
+
+
+def _ix(v, names):
+    """canonical text of an index expression (linear arithmetic normalised): i2-1, j+1, i0, 0, ..."""
+    d, c = _lin(v, names)
+    if not d:
+        return str(c)
+    parts = []
+    for k in sorted(d, key=lambda k_: (d[k_] < 0, k_)):
+        co = d[k]
+        parts.append(('' if co == 1 else '-' if co == -1 else '%d*' % co) + k)
+    s = '+'.join(parts).replace('+-', '-')
+    if c:
+        s += '%+d' % c
+    return s
+
+
+def _ix_diff(a, b, names):
+    """(symbolic part, constant) of a - b"""
+    d, c = _comb(_lin(a, names), _lin(b, names), -1)
+    return (frozenset(d.items()), c)
+
+
+def _nonempty(op, negated, k, truth):
+    """does `len + k OP 0` (len = group length >= 0; negated: `-len + k OP 0`) say that the group is non-empty? None if it says neither"""
+    # evaluate the comparison for len = 0 and len = 1, 2: it must separate 0 from the positives
+    def ev(n):
+        v = (-n if negated else n) + k
+        return {'gt': v > 0, 'lt': v < 0, 'ge': v >= 0, 'le': v <= 0, 'ne': v != 0, 'eq': v == 0}[op]
+    at0, pos = ev(0), {ev(1), ev(2), ev(5)}
+    if len(pos) != 1 or at0 in pos:
+        return None
+    return truth == pos.pop()
 
 
 def check_vertex_cycle(ctx, rep, rule='T-vertex-cycle'):
@@ -436,12 +481,18 @@ def check_vertex_cycle(ctx, rep, rule='T-vertex-cycle'):
         has_r = has_l = None
         for (v, c) in p.conds:
             x = strip_upd(v)
-            if x[0] == 'op' and x[1] == 'gt' and len(x) == 4:
-                a, bb_ = _ix(x[2], names), _ix(x[3], names)
-                if (a, bb_) == ('i1', 'i0'):
-                    has_r = c[1]
-                elif (a, bb_) == ('i2', 'i1'):
-                    has_l = c[1]
+            if x[0] == 'op' and x[1] in ('gt', 'lt', 'ne', 'eq', 'ge', 'le') and len(x) == 4:
+                # a group is non-empty iff its length is positive: i1 > i0, i1 - i0 > 0, i1 != i0, i1 - i0 >= 1 ...
+                d = _ix_diff(x[2], x[3], names)
+                for form, which in (({'i1': 1, 'i0': -1}, 'r'), ({'i2': 1, 'i1': -1}, 'l'), ({'i0': 1, 'i1': -1}, '-r'), ({'i1': 1, 'i2': -1}, '-l')):
+                    for k_ in (0, 1, -1):
+                        if d == (frozenset(form.items()), k_):
+                            val = _nonempty(x[1], which.startswith('-'), k_, bool(c[1]))
+                            if val is not None:
+                                if which.endswith('r'):
+                                    has_r = val
+                                else:
+                                    has_l = val
         for e in p.events:
             if e['k'] == 'store' and e['loc'][0][0] == 'ext':
                 base = strip_upd(e['loc'][0][1])
